@@ -74,6 +74,13 @@ func (p *Program) genFunc(fc *FuncContract) (g *Gen, fr *Frame, ur *UnitResult) 
 		}
 	}()
 	h := Heap{}
+	// A-LOCKS: a unit is entered with none of the mutexes it operates on held by the entering thread,
+	// unless its contract says otherwise (lock preconditions are ordinary requires clauses, checked at
+	// the call sites of verified callers)
+	for _, k := range []string{"W", "R"} {
+		n, _ := g.lockArr(k)
+		h[n] = "((as const (Array Int Bool)) false)"
+	}
 	fr.curGuard = "true"
 	var args []*Val
 	for i, prm := range fn.Params {
